@@ -13,10 +13,10 @@ import "os"
 
 type c13Dispatcher struct{ posted []func() }
 
-func (d *c13Dispatcher) runLoop() error                           { return nil }
+func (d *c13Dispatcher) runLoop() error                          { return nil }
 func (d *c13Dispatcher) newConnection(connFd *os.File) eventConn { return nil }
-func (d *c13Dispatcher) shutdown() error                          { return nil }
-func (d *c13Dispatcher) post(f func())                            { d.posted = append(d.posted, f) }
+func (d *c13Dispatcher) shutdown() error                         { return nil }
+func (d *c13Dispatcher) post(f func())                           { d.posted = append(d.posted, f) }
 
 // newClientSession dials the new server; here it yields a fresh session or an error (symbolic)
 func vfstub_newClientSession(sessionID int, epochID, randID uint64, config *SessionManagerConfig) (*Session, error) {
